@@ -2,7 +2,7 @@
 import signal
 
 ID = "C16"
-TITLE = "work queue: every class scheduled completely, once, in order; exhaustion is stable; next terminates"
+TITLE = "work queue: every class scheduled completely, once, in order; exhaustion is stable; every next call and every drain terminate"
 COQ_PROPS = "Props/C16.v"
 COQ_RUN = ("Queue.Run", "run_c16")
 GEN_TARGETS = ["queue_can_do_inferral", "queue_can_do_initial", "queue_change_level_order"]   # Queue/GenBridge.v
@@ -11,7 +11,9 @@ RULE = (
     "random histories (1-90 operations, optionally followed by a drain of next() calls) of "
     "add / set_not_inferrable / set_verified / set_stop_yielding / next(queue) / queue.do_level() / next(generator) "
     "on a real DefaultQueue built from a real StrategyPack of dummy strategies; pack shape = 0-3 inferral, "
-    "0-3 initial strategies, 0-3 expansion sets of 0-3 strategies (10% of packs repeat a strategy object); "
+    "0-3 initial strategies, 0-3 expansion sets of 0-3 strategies (10% of packs enter a branch that replaces each slot "
+    "with probability 0.3 by a random id of the pack: measured 6.0% of packs repeat a strategy object somewhere, 3.8% "
+    "violate the hypothesis NoDup (initial ++ concat expansion) of C16_no_duplicate); "
     "five history profiles (uniform mix, add-bursts then drain, do_level driven, searcher-like children "
     "added after a packet, stop marks right after a hand-out while work is staged); labels from a small pool "
     "so duplicate additions and mid-level additions occur; an edge stream uses negative/huge labels, empty "
@@ -27,25 +29,52 @@ TRUSTED = [
 ASSUMPTIONS = [
     "labels are hashable integers; the strategies of the pack are opaque objects",
     "C16_no_duplicate assumes the initial and expansion strategies of the pack are pairwise distinct objects "
-    "(otherwise the same (label, strategy) pair is legitimately scheduled once per occurrence)",
+    "(NoDup (initial_strategies ++ concat expansion_strats); otherwise the same (label, strategy) packet is scheduled "
+    "once per occurrence, Example C16_no_duplicate_near_miss); its conclusion is about PACKETS (label, strategies, inferral): "
+    "a strategy that is both an inferral strategy and an initial/expansion strategy is handed out for a label inside the "
+    "inferral packet and again alone; the hypothesis is a contract on the pack that nothing checks on real packs. "
+    "C16_order, C16_only_added, C16_packets_bounded, C16_drain_terminates, C16_inferral_first need no hypothesis on the pack "
+    "(C16_inferral_first: inferral_strategies <> [], otherwise there is no inferral packet)",
     "DefaultQueue.set_not_initial (public helper, never called by the searcher) is not part of the histories",
     "the histories drive one do_level generator at a time (a new do_level() replaces the previous one)",
 ]
-TECHNIQUE = "Coq proof (invariants by induction over operation histories, termination by a measure) + extracted-model/implementation correspondence"
+TECHNIQUE = "Coq proof (invariants by induction over operation histories; per-call termination by fuel proved sufficient through a measure; run termination by a counting bound) + extracted-model/implementation correspondence"
 LEVEL_TEXT = (
     "Theorems C16_* (coq/theories/Props/C16.v) prove for every pack and every history of add / set_not_inferrable / "
     "set_verified / set_stop_yielding / next / do_level operations on the Gallina transcription of DefaultQueue: "
-    "next always terminates (measure, no fuel exhaustion) and never trips an assert; a packet is never handed out "
-    "for a label told to stop; per label the packets handed out are a prefix of inferral, initial strategies, "
-    "expansion sets in pack order (inferral possibly skipped), hence no packet is handed out twice; when next "
-    "signals StopIteration every added, never-stopped label has received all its work; StopIteration persists "
-    "until an add; do_level yields while the level counter is unchanged and raises NoMoreClassesToExpandError "
-    "exactly when the queue runs dry first. The model is tied to class_queue.py by comparing complete output "
-    "streams, queue_sizes and queue lengths on generated histories."
+    "every single next call terminates (C16_next_terminates, C16_fuel_irrelevant: fuel = measure + 2 is proved sufficient) "
+    "and no operation of a history trips an assert (C16_history_total); a packet is never handed out for a label told to "
+    "stop (C16_never_ignored, C16_never_ignored_state); every packet handed out, and every label anywhere in the queue, "
+    "belongs to a label that was added (C16_only_added, C16_queue_only_added); per label the packets handed out are a "
+    "prefix of [inferral packet] ++ initial strategies ++ expansion sets in pack order, or of the same without the inferral "
+    "packet (C16_order); the inferral packet is the label's FIRST packet unless a set_not_inferrable for that label occurs "
+    "strictly before the operation that handed out the label's first packet (C16_inferral_first; a later mark excuses "
+    "nothing); IF the initial and expansion strategies of the pack are pairwise distinct, no packet is handed out twice "
+    "(C16_no_duplicate; without that hypothesis a repeated strategy is scheduled once per occurrence); a whole history hands "
+    "out at most (distinct labels added) * (packets of one label) packets (C16_packets_bounded), and after any history "
+    "repeated next calls reach StopIteration within (that bound - packets already handed out) calls and stay there "
+    "(C16_drain_terminates, C16_drain_stays_stopped: the property title's 'terminates'; C16_work_size: packets of one "
+    "label = [pack has inferral] + #initial + total size of the expansion sets), that drain ends with every added, "
+    "never-stopped label having ALL its work (C16_every_class_eventually_complete: liveness), and likewise repeated "
+    "next(generator) calls of do_level end the pass with StopIteration or NoMoreClassesToExpandError within the same bound "
+    "(C16_level_pass_terminates); when next signals StopIteration "
+    "every added label that the user never told to stop has received all its work, the inferral packet missing only if the "
+    "label was marked not-inferrable (C16_complete_when_drained); StopIteration persists until an add "
+    "(C16_stop_again, C16_exhaustion_stable); one resumption of do_level finishes at once if the level counter has moved, "
+    "else yields what next yields, and raises NoMoreClassesToExpandError exactly when StopIteration arrives with the level "
+    "counter unchanged (C16_do_level, C16_do_level_fresh_done) - a pass that advances the counter and runs dry in the same "
+    "call finishes without yielding anything and without the error (Example C16_phantom_level, recorded behaviour). "
+    "The model is tied to class_queue.py by comparing complete output streams, queue_sizes and queue lengths on generated "
+    "histories; the oracle decides the same predicates on the implementation's stream, including the mark-before-first-packet "
+    "condition and the drain bound (the k-th consecutive next with k > |added labels| * |work of a label| must be "
+    "StopIteration, and the appended drain must end in StopIteration)."
 )
 LEVEL_NOTE = (
     "Trusted: Coq kernel, ExtrOcamlBasic extraction + OCaml driver, the correspondence harness. "
-    "Modelled not verified: class_queue.py itself (deque/Counter/sorted/set semantics transcribed by hand)."
+    "Modelled not verified: class_queue.py itself (deque/Counter/sorted/set semantics transcribed by hand). "
+    "Not proved: a characterisation of the packets of one complete do_level pass (only single resumptions are); "
+    "the converse of C16_inferral_first (a mark before the first packet does not always suppress the inferral packet: "
+    "it is kept when already staged, and the mark is ignored for a stopped label)."
 )
 
 # op codes
